@@ -176,3 +176,83 @@ class MetricsDriver:
     def close(self):
         if self.w is not None:
             self.w.close()
+
+
+def gen_trace(rnd, mtypes, ntasks=4, nscopes=8, nops=30, records=True):
+    """a random program over up to 4 tasks and 8 scopes (sync/async, spawned and plain tasks that outlive their scopes,
+    records of all metric types, clock ticks), recorded from the real library and closed by Drain"""
+    d = MetricsDriver(mtypes)
+    d.reset(dict(alive=[0] * 4, phase=[0] * 8))
+    tr = [dict(ev="Init", init={})]
+    stack = {1: []}
+    base_tg = {1: 0}
+    grp = {}
+    alive = {1}
+    born = 1
+    nsid = 0
+    opened = set()
+
+    def tg_of(t):
+        for sid, k in reversed(stack[t]):
+            if k == "a":
+                return sid
+        return base_tg[t]
+
+    def enc(o):
+        def rec(x):
+            return dict(x, own={k: list(v) for k, v in x["own"].items()}, view={k: list(v) for k, v in x["view"].items()})
+        return dict(a=o["a"], cb=[[rec(x) for x in lst] for lst in o["cb"]], res=o["res"])
+
+    try:
+        for _ in range(nops):
+            t = rnd.choice(sorted(alive))
+            ch = [("Tick", [])]
+            if nsid < nscopes and len(stack[t]) < 4:
+                ch += [("Open", [t, rnd.choice(["s", "a"])])] * 4
+            if stack[t]:
+                sid, k = stack[t][-1]
+                if k == "s" or not any(grp.get(u) == sid for u in alive):
+                    ch += [("Close", [t])] * 3
+            if born < ntasks:
+                hows = ["plain"]
+                if tg_of(t) != 0 and tg_of(t) in opened:
+                    hows.append("spawn")
+                ch += [("Start", [t, born + 1, rnd.choice(hows)])] * 2
+            if not stack[t] and t != 1:
+                ch.append(("End", [t]))
+            if records:
+                ch += [("Record", [t, rnd.choice(list(mtypes))])] * 3
+            name, args = rnd.choice(ch)
+            if name == "Open":
+                nsid += 1
+                stack[t].append((nsid, args[1]))
+                opened.add(nsid)
+            elif name == "Close":
+                sid, k = stack[t].pop()
+                opened.discard(sid)
+            elif name == "Start":
+                born += 1
+                base_tg[born] = tg_of(t)
+                grp[born] = tg_of(t) if args[2] == "spawn" else 0
+                stack[born] = []
+                alive.add(born)
+            elif name == "End":
+                alive.discard(t)
+            o = d.apply(name, tuple(args))
+            tr.append(dict(ev=name, args=args, obs=enc(o)))
+        o = d.apply("Drain", ())
+        tr.append(dict(ev="Drain", args=[], obs=enc(o)))
+    finally:
+        d.close()
+    return tr
+
+
+def trace_kw(mtypes):
+    return dict(
+        variables=["par", "kids", "phase", "kind", "done", "born", "doneAt", "cbq", "cblog", "vals", "cur", "tg", "stack",
+                   "saved", "grp", "alive", "now", "nrec", "nops", "drained", "obs"],
+        constants=dict(NTasks=4, N=8, MaxOps=100000, MaxRec=100000, MaxT=100000,
+                       MTypes="{" + ", ".join(f'"{m}"' for m in mtypes) + "}", Kinds='{"s", "a"}', Bug='"none"'),
+        config_vars=[], actions=dict(Open=2, Close=1, Start=3, End=1, Tick=0, Record=2, Drain=0),
+        internal="Internal", quiet="cbq = {}",
+        invariants=["CbAtMostOnce", "CbAfterSubtree", "CbSeesCompleted", "ExitNeverFails", "FoldOrder"])
